@@ -11,11 +11,24 @@ def run(tier, rng, C):
                               nonstr_keys=0.05))
     stacks += MC.nested_sequences(rng, 1500 if tier == 'quick' else 40000, markers=('', '', '', '~', '='))
     cases = MC.build_cases(C, stacks)
+    # layers that are written as references to maps / lists / scalars elsewhere in the tree are layers all the same
+    nref = 1200 if tier == 'quick' else 40000
+    rcases = MC.build_cases(C, [V.ref_stack(rng, rng.randint(2, 5), rng.randint(1, 3), markers=0.05, p=0.3) for _ in range(nref)],
+                            prefix='r')
+    tstacks = []
+    for _ in range(300 if tier == 'quick' else 6000):
+        # one key whose every layer is a reference to a helper holding a value of a random kind
+        helpers = [(V.S('h%d' % j), V.plain_value(rng, 2)) for j in range(rng.randint(2, 4))]
+        tstacks.append([('m', helpers)] + [V.M(('t', V.S('${h%d}' % j))) for j in range(len(helpers))])
+    rcases += MC.build_cases(C, tstacks, prefix='t')
+    for c in rcases:
+        c['clean'] = False      # the specification oracle speaks about reference-free stacks only
+    cases += rcases
     for c in cases:
         c['nontrivial'] = V.has_shared_key(c['layers'])
     rule = ('exhaustive: all stacks of <= %d layers over 8 value shapes (null,bool,num,str,list,map,...) at one key, top level '
             'and nested, with every marker combination; plus %d random stacks (<= 6 layers, depth <= 4, null/override/constant '
-            'sprinkled, non-string keys); non-trivial = some key defined by >= 2 layers; plus sequences of 3-5 layers giving one nested key values of random kinds (nulls, empty containers); oracle = extracted Spec/DeepMerge.v on '
-            'clean-key stacks, model/impl comparison on all' % (2 if tier == 'quick' else 3, nrand))
+            'sprinkled, non-string keys); non-trivial = some key defined by >= 2 layers; plus sequences of 3-5 layers giving one nested key values of random kinds (nulls, empty containers); plus %d stacks in which layers are given by reference; oracle = extracted Spec/DeepMerge.v on '
+            'clean-key stacks, model/impl comparison on all' % (2 if tier == 'quick' else 3, nrand, nref))
     return C.standard_run(cases, rule, key_fn=lambda c, m, i, r: 'model-impl-differ', extra_oracle=MC.spec_oracle(C),
                           exhaustive=True)
